@@ -71,83 +71,91 @@ theorem decodeHdr_encHdr (h : Hdr) (tail : Bytes) (hop : h.opcode < 16) (hlen : 
       cases masked <;> simp
 
 /-- the header `encodeFrame` writes -/
-def hdrOf (g : Cfg) (opcode : Nat) (sendOpcode fin : Bool) (data : Bytes) (rsv1 : Bool) : Hdr :=
-  { fin, rsv1, opcode := if sendOpcode then opcode else 0, masked := g.isClient, len := data.length }
+def hdrOf (isClient : Bool) (opcode : Nat) (sendOpcode fin : Bool) (data : Bytes) (rsv1 : Bool) : Hdr :=
+  { fin, rsv1, opcode := if sendOpcode then opcode else 0, masked := isClient, len := data.length }
 
-def infoOf (g : Cfg) (opcode : Nat) (sendOpcode fin : Bool) (data : Bytes) (rsv1 : Bool) : HdrInfo :=
-  let h := hdrOf g opcode sendOpcode fin data rsv1
+def infoOf (isClient : Bool) (opcode : Nat) (sendOpcode fin : Bool) (data : Bytes) (rsv1 : Bool) : HdrInfo :=
+  let h := hdrOf isClient opcode sendOpcode fin data rsv1
   { opcode := h.opcode, fin := h.fin, r1 := h.rsv1, r2 := false, r3 := false, masked := h.masked,
     bodyLen := h.len, headLen := (encHdr h).length + (if h.masked then 4 else 0) }
 
 /-- payload recovery: what `frameBody` extracts from an encoded frame (followed by anything) is the payload written,
     for either role and any 4-byte mask key -/
-theorem frameBody_encodeFrame (g : Cfg) (hk : g.maskKey.length = 4) (opcode : Nat) (sendOpcode fin : Bool)
+theorem frameBody_encodeFrame (isClient : Bool) (key : Bytes) (hk : key.length = 4) (opcode : Nat) (sendOpcode fin : Bool)
     (data : Bytes) (rsv1 : Bool) (tail : Bytes) :
-    frameBody (encodeFrame g opcode sendOpcode fin data rsv1 ++ tail) (infoOf g opcode sendOpcode fin data rsv1) = data := by
+    frameBody (encodeFrame isClient key opcode sendOpcode fin data rsv1 ++ tail) (infoOf isClient opcode sendOpcode fin data rsv1) = data := by
   unfold frameBody infoOf encodeFrame hdrOf
   simp only
-  cases hc : g.isClient with
+  cases isClient with
   | false =>
     simp only [Bool.false_eq_true, if_false, Nat.add_zero, List.append_assoc]
     rw [List.drop_left' rfl]
     simp
   | true =>
     simp only [if_true, List.append_assoc, Int.toNat_natCast]
-    have e1 : ∀ (hd : Bytes), List.drop (hd.length + 4) (hd ++ (g.maskKey ++ (maskSpec g.maskKey data ++ tail)))
-        = maskSpec g.maskKey data ++ tail := by
+    have e1 : ∀ (hd : Bytes), List.drop (hd.length + 4) (hd ++ (key ++ (maskSpec key data ++ tail)))
+        = maskSpec key data ++ tail := by
       intro hd
       rw [← List.drop_drop, List.drop_left' rfl, List.drop_left' hk]
-    have e2 : ∀ (hd : Bytes), List.take 4 (List.drop (hd.length + 4 - 4) (hd ++ (g.maskKey ++ (maskSpec g.maskKey data ++ tail))))
-        = g.maskKey := by
+    have e2 : ∀ (hd : Bytes), List.take 4 (List.drop (hd.length + 4 - 4) (hd ++ (key ++ (maskSpec key data ++ tail))))
+        = key := by
       intro hd
       rw [Nat.add_sub_cancel, List.drop_left' rfl, List.take_left' hk]
     rw [e1, e2]
-    have : List.take data.length (maskSpec g.maskKey data ++ tail) = maskSpec g.maskKey data := by
+    have : List.take data.length (maskSpec key data ++ tail) = maskSpec key data := by
       rw [List.take_left' (by simp [maskSpec])]
     rw [this, maskSpec_involutive]
 
-theorem encodeFrame_shape (g : Cfg) (opcode : Nat) (so fin : Bool) (data : Bytes) (rsv1 : Bool) :
-    ∃ rest, encodeFrame g opcode so fin data rsv1 = encHdr (hdrOf g opcode so fin data rsv1) ++ rest ∧
-      rest.length = data.length + (if g.isClient then g.maskKey.length else 0) := by
+theorem encodeFrame_shape (isClient : Bool) (key : Bytes) (opcode : Nat) (so fin : Bool) (data : Bytes) (rsv1 : Bool) :
+    ∃ rest, encodeFrame isClient key opcode so fin data rsv1 = encHdr (hdrOf isClient opcode so fin data rsv1) ++ rest ∧
+      rest.length = data.length + (if isClient then key.length else 0) := by
   unfold encodeFrame hdrOf
-  cases g.isClient with
+  cases isClient with
   | false => exact ⟨data, by simp⟩
-  | true => exact ⟨g.maskKey ++ maskSpec g.maskKey data, by simp [maskSpec]; omega⟩
+  | true => exact ⟨key ++ maskSpec key data, by simp [maskSpec]; omega⟩
+
+/-- total length of an encoded frame = what the decoder will consume -/
+theorem encodeFrame_length (isClient : Bool) (key : Bytes) (hk : key.length = 4) (opcode : Nat) (so fin : Bool) (data : Bytes) (rsv1 : Bool) :
+    (infoOf isClient opcode so fin data rsv1).headLen + data.length = (encodeFrame isClient key opcode so fin data rsv1).length := by
+  obtain ⟨rest, hshape, hrl⟩ := encodeFrame_shape isClient key opcode so fin data rsv1
+  rw [hshape]
+  simp only [infoOf, hdrOf, List.length_append, hrl, hk]
+  cases isClient <;> simp <;> omega
+
+/-- the header of an encoded frame decodes to `infoOf` whatever follows -/
+theorem decodeHdr_encodeFrame (isClient : Bool) (key : Bytes) (opcode : Nat) (so fin : Bool) (data : Bytes) (rsv1 : Bool)
+    (tail : Bytes) (hop : opcode < 16) (hlen : data.length < 2 ^ 63) :
+    decodeHdr (encodeFrame isClient key opcode so fin data rsv1 ++ tail) = some (.ok (infoOf isClient opcode so fin data rsv1)) := by
+  obtain ⟨rest, hshape, _⟩ := encodeFrame_shape isClient key opcode so fin data rsv1
+  have hop' : (hdrOf isClient opcode so fin data rsv1).opcode < 16 := by
+    unfold hdrOf; simp only; split <;> omega
+  rw [hshape, List.append_assoc]
+  exact decodeHdr_encHdr _ _ hop' (by simpa [hdrOf] using hlen)
 
 /-- C12 (frame level): whatever follows in the cache, the receiver's `nextFrame` hands out exactly the frame that
     `encodeFrame` wrote — same opcode, FIN, RSV1, payload, and the exact number of bytes consumed — provided the
     receiver's size and validity checks pass for that header. -/
-theorem nextFrame_encodeFrame (gr gw : Cfg) (hk : gw.maskKey.length = 4) (s : S) (opcode : Nat) (so fin : Bool)
+theorem nextFrame_encodeFrame (gr : Cfg) (isClient : Bool) (key : Bytes) (hk : key.length = 4) (s : S) (opcode : Nat) (so fin : Bool)
     (data : Bytes) (rsv1 : Bool) (tail : Bytes)
-    (hcache : s.cache = encodeFrame gw opcode so fin data rsv1 ++ tail)
+    (hcache : s.cache = encodeFrame isClient key opcode so fin data rsv1 ++ tail)
     (hop : opcode < 16) (hlen : data.length < 2 ^ 63)
-    (hsz : sizeCheck gr (msgLen s) (infoOf gw opcode so fin data rsv1) = none)
-    (hv : validFrame gr (infoOf gw opcode so fin data rsv1).opcode fin rsv1 false false s.expecting = none) :
-    nextFrame gr s = .frame (encodeFrame gw opcode so fin data rsv1).length
-      (infoOf gw opcode so fin data rsv1).opcode data fin rsv1 := by
-  obtain ⟨rest, hshape, hrl⟩ := encodeFrame_shape gw opcode so fin data rsv1
-  have hop' : (hdrOf gw opcode so fin data rsv1).opcode < 16 := by
-    unfold hdrOf; simp only; split <;> omega
-  have hdec : decodeHdr s.cache = some (.ok (infoOf gw opcode so fin data rsv1)) := by
-    rw [hcache, hshape, List.append_assoc]
-    exact decodeHdr_encHdr _ _ hop' (by simpa [hdrOf] using hlen)
-  have hbody := frameBody_encodeFrame gw hk opcode so fin data rsv1 tail
-  have hinfo_len : (infoOf gw opcode so fin data rsv1).bodyLen = (data.length : Int) := by simp [infoOf, hdrOf]
-  have hinfo_fin : (infoOf gw opcode so fin data rsv1).fin = fin := by simp [infoOf, hdrOf]
-  have hinfo_r1 : (infoOf gw opcode so fin data rsv1).r1 = rsv1 := by simp [infoOf, hdrOf]
-  have hinfo_r2 : (infoOf gw opcode so fin data rsv1).r2 = false := by simp [infoOf]
-  have hinfo_r3 : (infoOf gw opcode so fin data rsv1).r3 = false := by simp [infoOf]
-  have htotal : (infoOf gw opcode so fin data rsv1).headLen + data.length
-      = (encodeFrame gw opcode so fin data rsv1).length := by
-    rw [hshape]
-    simp only [infoOf, hdrOf, List.length_append, hrl, hk]
-    by_cases hc : gw.isClient = true
-    · simp only [hc, if_true]; omega
-    · simp only [hc, Bool.false_eq_true, if_false]; omega
+    (hsz : sizeCheck gr (msgLen s) (infoOf isClient opcode so fin data rsv1) = none)
+    (hv : validFrame gr (infoOf isClient opcode so fin data rsv1).opcode fin rsv1 false false s.expecting = none) :
+    nextFrame gr s = .frame (encodeFrame isClient key opcode so fin data rsv1).length
+      (infoOf isClient opcode so fin data rsv1).opcode data fin rsv1 := by
+  have hdec : decodeHdr s.cache = some (.ok (infoOf isClient opcode so fin data rsv1)) := by
+    rw [hcache]; exact decodeHdr_encodeFrame isClient key opcode so fin data rsv1 tail hop hlen
+  have hbody := frameBody_encodeFrame isClient key hk opcode so fin data rsv1 tail
+  have hinfo_len : (infoOf isClient opcode so fin data rsv1).bodyLen = (data.length : Int) := by simp [infoOf, hdrOf]
+  have hinfo_fin : (infoOf isClient opcode so fin data rsv1).fin = fin := by simp [infoOf, hdrOf]
+  have hinfo_r1 : (infoOf isClient opcode so fin data rsv1).r1 = rsv1 := by simp [infoOf, hdrOf]
+  have hinfo_r2 : (infoOf isClient opcode so fin data rsv1).r2 = false := by simp [infoOf]
+  have hinfo_r3 : (infoOf isClient opcode so fin data rsv1).r3 = false := by simp [infoOf]
+  have htotal := encodeFrame_length isClient key hk opcode so fin data rsv1
   unfold nextFrame
   rw [hdec]
   simp only [hsz, hinfo_len, Int.toNat_natCast, hinfo_fin, hinfo_r1, hinfo_r2, hinfo_r3, hv]
-  have hge : (0 : Int) ≤ (data.length : Int) ∧ s.cache.length ≥ (infoOf gw opcode so fin data rsv1).headLen + data.length := by
+  have hge : (0 : Int) ≤ (data.length : Int) ∧ s.cache.length ≥ (infoOf isClient opcode so fin data rsv1).headLen + data.length := by
     refine ⟨Int.natCast_nonneg _, ?_⟩
     rw [htotal, hcache]; simp
   simp only [ge_iff_le, hge, and_self, if_true]
